@@ -267,6 +267,26 @@ impl BlockchainSyncState {
     /// ```
     ///
     /// ```
+    /// Mark the block as fetched from one peer only. A fetch of the same block that is still in
+    /// flight from another peer keeps its slot until that fetch returns (or the block is added).
+    pub fn mark_as_fetched_from_peer(&mut self, peer_index: PeerIndex, hash: SaitoHash) {
+        debug!(
+            "marking block : {:?} as fetched from peer : {:?}",
+            hash.to_hex(),
+            peer_index
+        );
+        if let Some(deq) = self.blocks_to_fetch.get_mut(&peer_index) {
+            for block_data in deq {
+                if hash.eq(&block_data.block_hash) {
+                    block_data.status = BlockStatus::Fetched;
+                    break;
+                }
+            }
+        }
+
+        self.remove_fetched_blocks();
+    }
+
     pub fn mark_as_fetched(&mut self, hash: SaitoHash) {
         debug!("marking block : {:?} as fetched", hash.to_hex());
         for (peer_index, deq) in self.blocks_to_fetch.iter_mut() {
